@@ -113,6 +113,9 @@ def spin_loops(func):
             d = dotted(t)
             if d and d.startswith("self."):
                 out.append((st, d, True))
+            elif isinstance(t, ast.BoolOp) and any(isinstance(x, ast.Attribute) and dotted(x) and dotted(x).startswith("self.") for x in ast.walk(t)):
+                # a sleep-only wait on a compound condition that is not `flag and thread.is_alive()`: not in the table
+                raise AnalysisError(f"wait loop `while {norm(t)}` with a sleep-only body: unknown hand-shake form")
     return out
 
 
